@@ -33,7 +33,7 @@ func init() {
 			"the root data node is named 'data' for ToXML and compared below the root; JSON decoding yields container children in map order (compared as a set)",
 			"a JSON number in exponent or '1.0' form for an integer leaf is not asserted either way",
 		},
-		minEvents: []string{"trees_encoded", "round_trips_compared", "fuzz_inputs", "fuzz_inputs_decoded_to_a_tree", "scalar_substitutions", "values_above_2_53", "deep_nesting_inputs"},
+		minEvents: []string{"trees_encoded", "round_trips_compared", "fuzz_inputs", "fuzz_inputs_decoded_to_a_tree", "scalar_substitutions", "values_above_2_53", "deep_nesting_inputs", "structural_mutations"},
 	}})
 }
 
@@ -162,9 +162,14 @@ func c19Conforms(root *snode, d *dnode, path string, bad *[]string) {
 	for _, k := range dataKids(root.kids) {
 		by[k.name] = k
 	}
+	seen := map[string]bool{}
 	for _, k := range d.kids {
 		ks := by[k.name]
 		kp := path + "/" + k.name
+		if seen[k.name] {
+			*bad = append(*bad, kp+": the node occurs twice below its parent")
+		}
+		seen[k.name] = true
 		if ks == nil {
 			*bad = append(*bad, kp+": node not in the schema")
 			continue
@@ -173,7 +178,12 @@ func c19Conforms(root *snode, d *dnode, path string, bad *[]string) {
 		case "container":
 			c19Conforms(ks, k, kp, bad)
 		case "list":
+			keys := map[string]bool{}
 			for _, e := range k.kids {
+				if keys[e.name] {
+					*bad = append(*bad, kp+"/"+e.name+": two entries of the list have this key")
+				}
+				keys[e.name] = true
 				c19Conforms(ks, e, kp+"/"+e.name, bad)
 			}
 		default:
@@ -352,6 +362,60 @@ func (p *c19) Run(tier string, seed int64, idx int) core.CaseResult {
 			}
 		}
 	}, 0)
+	// ---- structural mutations of valid JSON documents: a member given as an array of two values or of none,
+	// a member given twice (plain and module-qualified), a list entry given twice
+	for i, e := range encodings {
+		enc := encOf(i)
+		if enc == encoding.XML {
+			continue
+		}
+		doc := string(e)
+		for _, loc := range jsonScalarRe.FindAllStringSubmatchIndex(doc, 6) {
+			name, val := doc[loc[2]:loc[3]], doc[loc[4]:loc[5]]
+			plain := name
+			if j := strings.Index(name, ":"); j >= 0 {
+				plain = name[j+1:]
+			}
+			for _, m := range []string{
+				doc[:loc[4]] + "[" + val + "," + val + "]" + doc[loc[5]:],
+				doc[:loc[4]] + "[]" + doc[loc[5]:],
+				doc[:loc[0]] + "\"" + plain + "\":" + val + ",\"m18:" + plain + "\":" + val + doc[loc[1]:],
+			} {
+				res.Ev("structural_mutations", 1)
+				fuzzOne(enc, []byte(m), "structurally mutated")
+			}
+		}
+	}
+	for ti, t := range c.trees {
+		dup := t.clone()
+		done := false
+		var walk func(d *dnode, sk []*snode)
+		walk = func(d *dnode, sk []*snode) {
+			for _, k := range d.kids {
+				for _, ks := range dataKids(sk) {
+					if ks.name != k.name || done {
+						continue
+					}
+					if ks.kw == "list" && len(k.kids) > 0 {
+						k.kids = append(k.kids, k.kids[0].clone())
+						done = true
+					} else if ks.kw == "container" {
+						walk(k, ks.kids)
+					}
+				}
+			}
+		}
+		walk(dup, root.kids)
+		if !done {
+			continue
+		}
+		for _, enc := range []encoding.EncType{encoding.RFC7951, encoding.JSON, encoding.XML} {
+			if b, pmsg := c19Encode(ms, enc, dup); pmsg == "" {
+				res.Ev("structural_mutations", 1)
+				fuzzOne(enc, b, fmt.Sprintf("tree %d with its first list entry given twice, encoded as", ti))
+			}
+		}
+	}
 	// ---- scalar substitution in JSON documents
 	leafTypes := map[string]*snode{}
 	var collect func(kids []*snode)
